@@ -338,6 +338,18 @@ def build():
         u.extracted_fn(fe, name, within=span, contract=kw.get("contract", ""), sig_rw=kw.get("sig_rw"),
                        body_rw=(kw.get("body_rw") or []) + BODY_RW, proof_prologue=kw.get("proof_prologue", ""))
     u.raw("}")
+    # the frontend's initial state (third session): nothing read, nothing acknowledged, protocol features not ready, no failure, the
+    # caller's queue limit and endpoint
+    u.raw("impl Frontend {")
+    u.extracted_fn(fe, "new", within=fe.impl_span(r'^impl Frontend$'),
+                   sig_rw=[("R3", r'Endpoint<VhostUserMsgHeader<FrontendReq>>', 'Endpoint<FrontendReq>'), ("R3", r'-> Self\b', '-> Frontend')],
+                   body_rw=[("R8", r'node:\s*Arc::new\(Mutex::new\((FrontendInternal \{.*?\n\s*\})\)\),?', r'inner: \1, acq: Ghost(0nat),'),
+                            ("R10", r'VhostUserHeaderFlag::empty\(\)', 'VhostUserHeaderFlag { bits: 0 }')],
+                   contract="""
+        ensures r.inner.main_sock == ep, r.inner.max_queue_num == max_queue_num, r.inner.virtio_features == 0, r.inner.acked_virtio_features == 0,
+            r.inner.protocol_features == 0, r.inner.acked_protocol_features == 0, !r.inner.protocol_features_ready, r.inner.error is None,
+            r.inner.hdr_flags.bits == 0, // [C07:frontend-starts-closed,C02] nothing is negotiated on a new frontend: every feature-gated call is refused until the handshake has run; no header flag is set""")
+    u.raw("}")
     # API methods
     ms = methods()
     u.raw("impl Frontend {")
